@@ -43,9 +43,9 @@ Definition set_union (a b : list Z) : list Z := a ++ b.
 Definition set_diff (a b : list Z) : list Z := filter (fun x => negb (zmem x b)) a.
 
 (* a Bulk action on the table: row ids and {col_id: values} in dict order *)
-Definition action := (list Z * list (Z * list Z))%type.
-Definition act_rows (a : action) : list Z := fst a.
-Definition act_cols (a : action) : list (Z * list Z) := snd a.
+Definition bulk_action := (list Z * list (Z * list Z))%type.
+Definition act_rows (a : bulk_action) : list Z := fst a.
+Definition act_cols (a : bulk_action) : list (Z * list Z) := snd a.
 Definition keys (d : list (Z * list Z)) : list Z := map fst d.
 
 (* enumerate(l) and l[i] *)
